@@ -122,6 +122,9 @@ var c01NilKey = probe.Define("C01", "nilkey", func(t *rapid.T) protIn {
 func TestC01(t *testing.T) {
 	c := probe.NewCtx(t, "C01")
 	if c.Shard == 0 {
+		endurance(c, "C01", "sizes-multiple-of-4096", c.N(48, 400))
+	}
+	if c.Shard == 0 {
 		endurance(c, "C01", "protect-unprotect-objects-only", 70000)
 	}
 	if c.Shard == 0 {
